@@ -22,6 +22,9 @@ pub enum Op {
 		keep_clone: bool,
 	},
 	Remove { name: u8 },
+	/// merge a clone of the module itself (`which` = 0) or of an earlier snapshot of it (`which` - 1, if there is one)
+	/// back into the module: tables that are or were shared with the receiver
+	MergeOwn { which: u8 },
 	Snapshot,
 	Call { name: u8 },
 }
@@ -122,7 +125,7 @@ fn apply(st: &mut St, module: &mut RpcModule<()>, model: &mut Model, op: &Op, sn
 			let mut omodel = Model::new();
 			if depth < 2 {
 				for o in other {
-					if matches!(o, Op::Snapshot | Op::Call { .. }) {
+					if matches!(o, Op::Snapshot | Op::Call { .. } | Op::MergeOwn { .. }) {
 						continue;
 					}
 					apply(st, &mut om, &mut omodel, o, snaps, clones, fails, depth + 1);
@@ -163,6 +166,28 @@ fn apply(st: &mut St, module: &mut RpcModule<()>, model: &mut Model, op: &Op, sn
 				fails.push(("c13/remove-result".into(), format!("remove_method({n}) returned Some={}, model had={had}", res.is_some())));
 			}
 			"remove"
+		}
+		Op::MergeOwn { which } => {
+			if depth != 0 {
+				return "merge-own-skipped";
+			}
+			let (other, omodel): (Methods, Model) = match snaps.get((*which as usize).wrapping_sub(1)) {
+				Some((m, mm)) if *which > 0 => (m.clone(), mm.clone()),
+				_ => (module.clone().into(), model.clone()),
+			};
+			let shared = omodel.keys().any(|k| model.contains_key(k));
+			let res = module.merge(other);
+			if res.is_ok() == shared {
+				fails.push(("c13/merge-result".into(), format!("merge of its own clone / snapshot {:?} into {:?}: {res:?}", omodel.keys().collect::<Vec<_>>(), model.keys().collect::<Vec<_>>())));
+			}
+			if !shared {
+				for (k, v) in omodel {
+					model.insert(k, v);
+				}
+				"merge-own-ok"
+			} else {
+				"merge-own-fails"
+			}
 		}
 		Op::Snapshot => {
 			if depth == 0 && snaps.len() < 4 {
@@ -236,6 +261,7 @@ fn arb_op(depth: u32) -> BoxedStrategy<Op> {
 		3 => (0u8..6, 0u8..6).prop_map(|(new, existing)| Op::Alias { new, existing }),
 		3 => (0u8..6).prop_map(|name| Op::Remove { name }),
 		2 => Just(Op::Snapshot),
+		2 => (0u8..4).prop_map(|which| Op::MergeOwn { which }),
 		2 => (0u8..6).prop_map(|name| Op::Call { name }),
 	];
 	if depth == 0 {
